@@ -209,11 +209,20 @@ theorem canon_volumesFor (row : BackendRow) (dir : PPath) :
 theorem sameMembers_refl {α} [DecidableEq α] (l : List α) : sameMembers l l :=
   ⟨rfl, fun _ h => h, fun _ h => h⟩
 
+theorem mounts_volumesFor (row : BackendRow) (dir : PPath) :
+    (volumesFor row dir).map (fun v => stripSlash v.mount) =
+      ["/scripts", "/results", "/data"] ++ row.cacheVolumes.map fun v => stripSlash v.2 := by
+  unfold volumesFor
+  simp [cacheVolume, strip_scripts, strip_results, strip_data]
+
 /-- **C17.volumes** — every container gets: the package directory read-only at `/scripts` and
 writable at `/results`, the directory of the input files read-only at `/data`, and the docker
 volumes `func_adl_<name>` the backend's `docker_cache_volume()` lists (generated table) at their
-mount points — and nothing else. -/
-theorem volumes (a : DatasetArgs) (q : QueryFacts) (fs : FsFacts) (o : Outcome) :
+mount points — nothing else, and no two at the same mount point.
+Hypothesis on the backend row (decidable, proved for the generated table in
+`generated_backends_wellformed`): its cache mount points differ from each other and from
+`/scripts`, `/results`, `/data` — otherwise a cache volume would shadow the package or the data. -/
+theorem volumes (a : DatasetArgs) (q : QueryFacts) (fs : FsFacts) (o : Outcome) (hm : RowMounts a.row) :
     VolumesOk a (observe a (execute a q fs o)) := by
   have h := execute_shape a q fs o
   generalize execute a q fs o = r at h
@@ -227,10 +236,14 @@ theorem volumes (a : DatasetArgs) (q : QueryFacts) (fs : FsFacts) (o : Outcome) 
     rw [h1] at hc
     simp only [List.mem_singleton] at hc
     subst hc
-    unfold volumesMatch
-    rw [hp]
-    simp only [List.head?_cons, mkCall, mkDataset, canon_volumesFor]
-    exact sameMembers_refl _
+    constructor
+    · unfold volumesMatch
+      rw [hp]
+      simp only [List.head?_cons, mkCall, mkDataset, canon_volumesFor]
+      exact sameMembers_refl _
+    · unfold MountsDistinct
+      simp only [mkCall, mkDataset, mounts_volumesFor]
+      exact hm
 
 /-! ## the call -/
 
@@ -469,14 +482,15 @@ theorem machine (a : DatasetArgs) (q : QueryFacts) (fs : FsFacts) (o : Outcome) 
 
 /-! ## everything together -/
 
-/-- **C17.spec_partial** — the whole specification holds of every execution, under the two
-decidable hypotheses: the row's main script is in its package (true of the generated table) and
-every output chunk decodes (defect exclusion: `success_returns_counterexample`). Only the clauses
-`success_returns` and `failure_class` use the second one. -/
+/-- **C17.spec_partial** — the whole specification holds of every execution, under decidable
+hypotheses of two kinds: the backend row is sane (main script in its package, cache mount points
+distinct — both proved of the generated table) and every output chunk decodes (defect exclusion:
+`success_returns_counterexample`). Only the clauses `success_returns` and `failure_class` use the
+latter. -/
 theorem spec_partial (a : DatasetArgs) (q : QueryFacts) (fs : FsFacts) (o : Outcome)
-    (hrow : a.row.runner ∈ a.row.fileNames) (hd : AllDecode o) :
+    (hrow : a.row.runner ∈ a.row.fileNames) (hm : RowMounts a.row) (hd : AllDecode o) :
     Spec a q fs o (observe a (execute a q fs o)) :=
-  ⟨validate_first a q fs o, filelist a q fs o, image a q fs o, volumes a q fs o,
+  ⟨validate_first a q fs o, filelist a q fs o, image a q fs o, volumes a q fs o hm,
    call_exactly_when_runnable a q fs o hrow, failure_propagates a q fs o,
    fun hd' => failure_class_partial a q fs o hd', missing_result a q fs o,
    success_returns_partial a q fs o hd, returns_only_on_success a q fs o, (tempdir_released a q fs o).1⟩
@@ -501,7 +515,7 @@ theorem generated_backends_wellformed :
 /-- the specification for the generated backends (corollary of `spec_partial`) -/
 theorem spec_generated (a : DatasetArgs) (q : QueryFacts) (fs : FsFacts) (o : Outcome)
     (ha : a.row ∈ backends) (hd : AllDecode o) : Spec a q fs o (observe a (execute a q fs o)) :=
-  spec_partial a q fs o (generated_backends_wellformed.2 a.row ha).1 hd
+  spec_partial a q fs o (generated_backends_wellformed.2 a.row ha).1 (generated_backends_wellformed.2 a.row ha).2.1 hd
 
 /-! ## counterexamples and non-vacuity (literals) -/
 
@@ -542,7 +556,7 @@ theorem failure_class_counterexample :
     FailurePropagates exLatin1Fail (observe exArgs (execute exArgs exQ exFs exLatin1Fail)) := by decide
 
 -- non-vacuity: the hypotheses of the partial theorems are satisfiable and the success path is real
-example : exRow.runner ∈ exRow.fileNames ∧ AllDecode exGood ∧ Runnable exArgs exQ exFs := by decide
+example : exRow.runner ∈ exRow.fileNames ∧ RowMounts exRow ∧ AllDecode exGood ∧ Runnable exArgs exQ exFs := by decide
 example : (observe exArgs (execute exArgs exQ exFs exGood)).returned = ["/out/ANALYSIS.root"] := by decide
 example : ((observe exArgs (execute exArgs exQ exFs exGood)).calls.map (·.image)) = ["inner:1"] := by decide
 example : (observe exArgs (execute exArgs exQ exFs exGood)).seenFilelist = some "/data/a.root\n/data/b.root\n" := by decide
